@@ -1,8 +1,8 @@
 (* c12 model driver: one case per line (all tokens decimal)
      mode nt {nl {key kind}*nl}*nt nk {susp outc cf ci df di}*nk ns {t}*ns
    mode 0: the schedule lists task ids, polled in that order, then round-robin to completion.
-   mode 1: wake-driven executor in the harness (the schedule only picks among woken tasks);
-           the model runs round-robin and only schedule-independent observables are compared.
+   mode 1: wake-driven executor (each schedule entry picks among the currently woken tasks);
+           the third field is then the sequence of polled tasks.
    output: OK;log;midreq/midproc/middone;results;req/proc;stats;rounds
      log = keys joined by '.' ('-' if empty); results = tasks joined by '|', lookups by '.',
      each S<key> (symbols of that key) or E; stats = leaf:loaded:corrupt joined by ',' *)
@@ -34,22 +34,31 @@ let () =
           ((nat_of_int su, outcome_of_int oc), nat_of_int leaf_of_cf.(cf))) in
         let ns = next () in
         let sched = List.init ns (fun _ -> next ()) in
-        let sched = if mode = 0 then List.map nat_of_int sched else [] in
-        let o = run_case ts scripts (nat_of_int nleaf) sched in
         let b = Buffer.create 256 in
         let add = Buffer.add_string b in
         let pn n = string_of_int (int_of_nat n) in
-        if o_hung o then add "HUNG;" else add "OK;";
-        add (join "." pn (o_log o)); add ";";
-        add (pn (o_mid_req o) ^ "/" ^ pn (o_mid_proc o) ^ "/" ^ pn (o_mid_done o)); add ";";
-        add (String.concat "|" (List.map (fun rs ->
-          join "." (fun (k, oc) -> match oc with OOk -> "S" ^ pn k | _ -> "E") rs) (o_results o)));
-        add ";";
-        add (pn (o_req o) ^ "/" ^ pn (o_proc o)); add ";";
-        add (join "," (fun (l, oc) ->
-          let b x = if x then 1 else 0 in
-          Printf.sprintf "%s:%d:%d" (pn l) (b (stat_loaded oc)) (b (stat_corrupt oc))) (o_stats o));
-        add ";"; add (pn (o_rounds o));
+        let pres rs = String.concat "|" (List.map (fun r ->
+          join "." (fun (k, oc) -> match oc with OOk -> "S" ^ pn k | _ -> "E") r) rs) in
+        let pstats st = join "," (fun (l, oc) ->
+          let bi x = if x then 1 else 0 in
+          Printf.sprintf "%s:%d:%d" (pn l) (bi (stat_loaded oc)) (bi (stat_corrupt oc))) st in
+        if mode = 0 then begin
+          let o = run_case ts scripts (nat_of_int nleaf) (List.map nat_of_int sched) in
+          if o_hung o then add "HUNG;" else add "OK;";
+          add (join "." pn (o_log o)); add ";";
+          add (pn (o_mid_req o) ^ "/" ^ pn (o_mid_proc o) ^ "/" ^ pn (o_mid_done o)); add ";";
+          add (pres (o_results o)); add ";";
+          add (pn (o_req o) ^ "/" ^ pn (o_proc o)); add ";";
+          add (pstats (o_stats o)); add ";"; add (pn (o_rounds o))
+        end else begin
+          let o = run_wcase ts scripts (nat_of_int nleaf) (List.map nat_of_int sched) in
+          if w_lost o then add "LOST;" else if w_fuel o then add "HUNG;" else add "OK;";
+          add (join "." pn (w_log o)); add ";";
+          add (join "." pn (w_trace o)); add ";";
+          add (pres (w_results o)); add ";";
+          add (pn (w_req o) ^ "/" ^ pn (w_proc o)); add ";";
+          add (pstats (w_stats o)); add ";0"
+        end;
         print_endline (Buffer.contents b)
       end
     done
